@@ -25,16 +25,16 @@ type gStructDef struct {
 }
 
 type gStage struct {
-	Name     string
-	Ins      []gParam
-	Outs     []gParam
-	Split    bool
-	ChunkIns []gParam `json:",omitempty"`
+	Name      string
+	Ins       []gParam
+	Outs      []gParam
+	Split     bool
+	ChunkIns  []gParam `json:",omitempty"`
 	ChunkOuts []gParam `json:",omitempty"`
-	Lang     string
-	Src      string
-	MemGB    int      `json:",omitempty"`
-	Retain   []string `json:",omitempty"`
+	Lang      string
+	Src       string
+	MemGB     int      `json:",omitempty"`
+	Retain    []string `json:",omitempty"`
 }
 
 type gBind struct {
@@ -99,7 +99,7 @@ func (d *gDecl) outs() []gParam {
 type gProg struct {
 	Filetypes []string
 	Structs   []gStructDef `json:",omitempty"`
-	Decls     []gDecl // callee before caller; the last one is the top pipeline
+	Decls     []gDecl      // callee before caller; the last one is the top pipeline
 	Top       gCall
 	// rendering options (cosmetic by construction)
 	Style    int
